@@ -176,6 +176,113 @@ example : packify [16, -8] [1, 1] (some 1) false = .error .valueError ∧
     packify [4, 4] [1] none false = .error .indexError ∧
     packify [9] [1] (some 1) false = .error .valueError := by decide +kernel
 
+/-! ### packifyInto in full: any offset, any buffer type, the buffer after an exception -/
+
+/-- for a `bytearray` or `list` buffer and a non-negative offset the full model is the frame above -/
+theorem C40_packIntoFull_frame (kind : BufKind) (hk : kind ≠ .bytes) (b : List Byte)
+    (fmt fields : List Int) (size : Option Int) (o : Nat) (rev : Bool) (p : List Byte)
+    (hp : packify fmt fields size rev = .ok p) :
+    packifyIntoFull kind b fmt fields size (o : Int) rev =
+      ((b ++ List.replicate (o + p.length - b.length) 0#8).take o ++ p ++
+        (b ++ List.replicate (o + p.length - b.length) 0#8).drop (o + p.length), .ok p.length) :=
+  packIntoFull_ok kind hk b fmt fields size o rev p hp
+
+/-- **The caller's buffer after an exception**: never a partially packed buffer — it is the old
+buffer, at most with zero bytes appended (the code extends before it packs); untouched when the
+format / size check fails or when a `bytes` object cannot be extended. -/
+theorem C40_packIntoFull_after_error (kind : BufKind) (b b' : List Byte) (fmt fields : List Int)
+    (size : Option Int) (offset : Int) (rev : Bool) (e : IntoErr)
+    (h : packifyIntoFull kind b fmt fields size offset rev = (b', .error e)) :
+    (∃ k, b' = b ++ List.replicate k 0#8) ∧
+    ((∃ e', checkSize fmt size = .error e') → b' = b) ∧ (e = .attributeError → b' = b) :=
+  packIntoFull_error kind b b' fmt fields size offset rev e h
+
+example : packifyIntoFull .bytearray [7#8] [4, 4] [1] none 2 false
+      = ([7#8, 0#8, 0#8], .error (.codec .indexError)) ∧
+    packifyIntoFull .bytes [7#8] [8] [1] none 0 false = ([7#8], .error .typeErrorAssign) ∧
+    packifyIntoFull .bytes [7#8] [8] [1] none 1 false = ([7#8], .error .attributeError) ∧
+    packifyIntoFull .list [7#8] [8] [1] none 1 false = ([7#8, 1#8], .ok 1) := by decide +kernel
+
+/-- The frame for negative offsets as Python indexing suggests: counted from the end, overwriting
+in place, whenever the `size` bytes fit before the end of the buffer. -/
+def C40_negoffset_full : Prop :=
+  ∀ (kind : BufKind) (b : List Byte) (fmt fields : List Int) (size : Option Int) (offset : Int)
+    (rev : Bool) (p : List Byte), kind ≠ .bytes → packify fmt fields size rev = .ok p →
+    -(b.length : Int) ≤ offset → offset + (p.length : Nat) ≤ 0 →
+    packifyIntoFull kind b fmt fields size offset rev =
+      (b.take (offset + b.length).toNat ++ p ++ b.drop ((offset + b.length).toNat + p.length),
+        .ok p.length)
+
+/-- Proved part: it holds when the slice end `offset + size` is still negative (the negation of
+`negOffsetInserts`, region of known finding D40b, for a slice inside the buffer). -/
+theorem C40_packIntoFull_negative_offset_partial (kind : BufKind) (hk : kind ≠ .bytes)
+    (b : List Byte) (fmt fields : List Int) (size : Option Int) (offset : Int) (rev : Bool)
+    (p : List Byte) (hp : packify fmt fields size rev = .ok p)
+    (h1 : -(b.length : Int) ≤ offset) (h2 : offset + (p.length : Nat) < 0) :
+    packifyIntoFull kind b fmt fields size offset rev =
+      (b.take (offset + b.length).toNat ++ p ++ b.drop ((offset + b.length).toNat + p.length),
+        .ok p.length) :=
+  packIntoFull_neg kind hk b fmt fields size offset rev p hp h1 h2
+
+/-- When the slice reaches the end exactly (`offset = -size`) the end index `0` is read from the
+front: the packed byte is INSERTED before the last byte instead of replacing it. Witness of D40b. -/
+theorem C40_counterexample_negative_offset : ¬ C40_negoffset_full := by
+  intro h
+  have := h .bytearray [1#8, 2#8, 3#8] [8] [255] none (-1) false [255#8] (by decide)
+    (by decide +kernel) (by decide) (by decide)
+  revert this
+  decide +kernel
+
+example : packifyIntoFull .bytearray [1#8, 2#8, 3#8] [8] [255] none (-1) false
+      = ([1#8, 2#8, 255#8, 3#8], .ok 1) ∧
+    packifyIntoFull .bytearray [1#8, 2#8, 3#8] [8] [255] none (-2) false
+      = ([1#8, 255#8, 3#8], .ok 1) ∧ negOffsetInserts (-1) 1 = true ∧ negOffsetInserts (-2) 1 = false := by
+  decide +kernel
+
+/-! ### the format as TEXT -/
+
+/-- **Round trip from the text form**: whenever `packify` accepts the format text,
+`unpackify` with the same text returns the fields of `C40_unpack_pack` for the parsed widths. -/
+theorem C40_unpack_pack_text (txt : List Char) (fields : List Int) (size : Option Int)
+    (boolean rev : Bool) (b : List Byte) (hp : packifyText txt fields size rev = .ok b) :
+    ∃ ws sz, parseFmt txt = .ok ws ∧ checkSize ws size = .ok sz ∧
+      unpackifyText txt b boolean size rev
+        = .ok (specFields boolean ws fields ++ padFields boolean (8 * sz - ws.sum.toNat)) :=
+  unpack_pack_text txt fields size boolean rev b hp
+
+/-- **Every well-formed text parses to its widths**: optional leading white space, decimal
+widths separated by non-empty runs of ASCII white space, optional trailing white space. -/
+theorem C40_parse_wellformed_text (pre : List Char) (hpre : ∀ c ∈ pre, isSpace c = true)
+    (items : List (Nat × List Char)) (h : SepsOk items) :
+    parseFmt (pre ++ renderFmt items) = .ok (items.map (fun x => (x.1 : Int))) :=
+  parseFmt_render pre hpre items h
+
+/-- hence for every well-formed text with a value per field and a size that holds the widths the
+round trip succeeds and returns the masked fields plus padding -/
+theorem C40_unpack_pack_wellformed_text (pre : List Char) (hpre : ∀ c ∈ pre, isSpace c = true)
+    (items : List (Nat × List Char)) (h : SepsOk items) (fields : List Int) (size : Option Int)
+    (boolean rev : Bool) (sz : Nat) (hl : items.length ≤ fields.length)
+    (hs : checkSize (items.map (fun x => (x.1 : Int))) size = .ok sz) :
+    ∃ b, packifyText (pre ++ renderFmt items) fields size rev = .ok b ∧ b.length = sz ∧
+      unpackifyText (pre ++ renderFmt items) b boolean size rev
+        = .ok (specFields boolean (items.map (fun x => (x.1 : Int))) fields ++
+            padFields boolean (8 * sz - (items.map (fun x => (x.1 : Int))).sum.toNat)) := by
+  have hparse := parseFmt_render pre hpre items h
+  obtain ⟨b, hb⟩ := packify_succeeds (items.map (fun x => (x.1 : Int))) fields size rev sz
+    (by intro w hw; simp only [List.mem_map] at hw; obtain ⟨x, _, rfl⟩ := hw; omega)
+    (by simpa using hl) hs
+  have hpt : packifyText (pre ++ renderFmt items) fields size rev = .ok b := by
+    simp only [packifyText, hparse, hb]
+  obtain ⟨ws, sz', h1, h2, h3⟩ := unpack_pack_text _ fields size boolean rev b hpt
+  rw [hparse] at h1; injection h1 with h1; subst h1
+  rw [hs] at h2; injection h2 with h2; subst h2
+  exact ⟨b, hpt, packify_length hb hs, h3⟩
+
+example : parseFmt " 1\t3  2 2\n".toList = .ok [1, 3, 2, 2] ∧ parseFmt "1_0 +4 007 -2".toList = .ok [10, 4, 7, -2] ∧
+    parseFmt "1__0".toList = .error .valueError ∧ parseFmt "8 0x8".toList = .error .valueError ∧
+    parseFmt "".toList = .ok [] ∧ renderFmt [(1, " ".toList), (12, [])] = "1 12".toList ∧
+    packifyText "1 3 2 2".toList [1, 4, 0, 3] none false = .ok [0xc3#8] := by decide +kernel
+
 /-! ## 3. byte-order variants are mirror images -/
 
 theorem C40_reverse_mirror_packify (fmt fields : List Int) (size : Option Int) :
